@@ -1,14 +1,15 @@
 #!/bin/bash
-# mkseedws.sh <Cxx> [suffix]: scratch git worktree of /repo for a seeding sub-agent + task file with the property text only
+# mkseedws.sh <Cxx> [suffix] [text: mechanisms earlier seeds already used, to be avoided]: scratch git worktree of /repo for a seeding sub-agent + task file with the property text only
 set -e
 P=$1; S=${2:-a}; n=$(echo $P | tr A-Z a-z)$S
 D=/tmp/seed_$n
 git -C /repo worktree remove --force $D 2>/dev/null || true
 rm -rf $D /tmp/seed_${n}_out; mkdir -p /tmp/seed_${n}_out
 git -C /repo worktree add --detach $D HEAD >/dev/null 2>&1
-python3 - "$P" "$D" "/tmp/seed_${n}_out" <<'PY'
+python3 - "$P" "$D" "/tmp/seed_${n}_out" "${3:-}" <<'PY'
 import json,sys
-pid,d,out=sys.argv[1:4]
+pid,d,out,avoid=sys.argv[1:5]
+avoid_txt=('\nAn earlier change for this property already used the following mechanism; choose a DIFFERENT mechanism, in different code (another function, another stage of the pipeline, another kind of trigger):\n  '+avoid+'\n') if avoid else ''
 p=[json.loads(l) for l in open('/verif/properties.jsonl') if json.loads(l)['id']==pid][0]
 t=f"""# Task: a realistic property-breaking change to mimblewimble/grin
 
@@ -37,7 +38,7 @@ The change must need something SPECIFIC to manifest — a particular interleavin
 point, a multi-step sequence of operations, an unusual input, or two cooperating sites that each look fine alone —
 not something ordinary use would expose at once. Do not put it behind cfg flags and do not touch tests.
 Hooks under `#[cfg(grin_verif)]` exist in the tree; leave them alone.
-
+{avoid_txt}
 Deliver in {out}:
 1. `patch.diff` — `git -C {d} diff` of the change (source files only).
 2. a demonstration: a Rust integration test file (e.g. `{out}/demo_test.rs`, to be dropped into the right
